@@ -139,12 +139,20 @@ def run(ctx):
     log = monitors.ContractLog()
     undo = monitors.attach_from_kd_buf_contract(log)
     try:
-        for i in range(ctx.pick(150, 2500)):
+        for i in range(ctx.pick(200, 20000)):
             f = gen.gen_v3(rng)
             check_file(res, f)
             res.case(f['data'], nontrivial=bool(f['records'] or f['spec'].blocks))
             if i % 5 == 0:
                 partition_check(res, f)
+        # large dumps: many records in many chunks, hundreds of thread-map entries and log records
+        for m in ctx.pick((2000,), (70000, 3000)):
+            recs = gen.gen_records(rng, m, first_nonzero=False)
+            f = gen.gen_v3(rng, n=300, chunks=gen.split_chunks(rng, recs, rng.choice((1, 7, 40))))
+            f['records'] = recs
+            check_file(res, f, where='(large dump)')
+            res.case(f['data'])
+            res.count('large_files')
         # chunking metamorphism: one event sequence under every split into up to 3 chunks
         for _ in range(ctx.pick(6, 60)):
             recs = gen.gen_records(rng, rng.randrange(0, 7), first_nonzero=False)
